@@ -144,6 +144,16 @@ impl Property for C13 {
     fn selfcheck() -> Result<(), String> {
         vcheck::dynschema_selfcheck::run()
     }
+    /// libFuzzer input: option bits, then the type, then a value of that type
+    fn fuzz_decode(data: &[u8]) -> Option<(&'static str, Case, bool)> {
+        let mut b = engine::Bytes::new(data);
+        let opts = SerOpts::from_bits(b.u16() as u32);
+        let ty = ds::ty_from_bytes(&mut b, 4);
+        let val = ds::val_from_bytes(&mut b, &ty);
+        let c = Case { ty, val, opts };
+        let nt = nontrivial(&c);
+        Some(("fuzz-trees", c, nt))
+    }
     fn generate(ctx: &mut Ctx<Self>) {
         let fam = SerOpts::family();
         let d = ctx.tier.pick(2, 3);
@@ -174,4 +184,10 @@ impl Property for C13 {
 
 fn main() {
     engine::main::<C13>()
+}
+
+/// entry point of the libFuzzer target `fuzz/fuzz_targets/c13.rs`
+#[allow(dead_code)]
+pub fn fuzz(data: &[u8]) {
+    engine::fuzz_one::<C13>(data)
 }
